@@ -321,14 +321,14 @@ def onePacket (m : Mux) (p : Bytes) : Option (Outcome × Mux × Evs) :=
     if t = 90 then
       match decode p with
       | .error _ => some (.err, m, [])
-      | .ok (.chanOpen typ pid win maxPkt _) =>
+      | .ok (.chanOpen typ pid win maxPkt extra) =>
         if maxPkt < C35.minPacketLength || maxPkt > 2147483648 then
           some (.ok, m, [s!"w92:{pid}:2"])
         else
           let c := { newChan true m.nextUid with remoteId := pid, maxRemote := maxPkt, remoteWin := win % 4294967296 }
           let (m, id) := addChan { m with nextUid := m.nextUid + 1 } c
           -- delivered on incomingChannels; application policy: Accept types starting with 'a', else Reject
-          let ev1 := s!"nc:{bstr typ}"
+          let ev1 := s!"nc:{bstr typ}:{extra.length}"          -- ChannelType() and len(ExtraData()) as the application sees them
           if typ.head? == some 100 then
             -- application policy: types starting with 'd' are left undecided (neither Accept nor Reject yet)
             some (.ok, m, [ev1])
@@ -336,7 +336,9 @@ def onePacket (m : Mux) (p : Bytes) : Option (Outcome × Mux × Evs) :=
             let (c, ev) := chanSend { c with decided := true, accepted := true } s!"w91:{pid}:{id}" false
             some (.ok, { setChan m id (some c) with held := m.held ++ [c.uid] }, ev1 :: ev)
           else
-            let reason := if typ.head? == some 98 then 2 else 1
+            -- application policy: 'b…' ConnectionFailed, 'u…' UnknownChannelType, 'r…' ResourceShortage, else Prohibited
+            let reason := if typ.head? == some 98 then 2 else if typ.head? == some 117 then 3
+              else if typ.head? == some 114 then 4 else 1
             let (c, ev) := chanSend { c with decided := true } s!"w92:{pid}:{reason}" false
             let m := setChan m id none
             some (.ok, { m with detached := m.detached ++ [c] }, ev1 :: ev)
@@ -457,6 +459,18 @@ def localClose (m : Mux) (call h : Nat) : Option (Mux × Evs) :=
       if !c.decided then some (m, [s!"K{call}=und"]) else
       if c.sentClose then some (m, [s!"K{call}=err"]) else
       some (putBack m loc { c with sentClose := true }, [s!"w97:{c.remoteId}", s!"K{call}=ok"])
+
+/-- channel.CloseWrite on handle `h`: sends CHANNEL_EOF (refused once a close was sent) -/
+def localEOF (m : Mux) (call h : Nat) : Option (Mux × Evs) :=
+  match m.held[h]? with
+  | none => none
+  | some uid =>
+    match findByUid m uid with
+    | none => none
+    | some (_, c) =>
+      if !c.decided then some (m, [s!"E{call}=und"]) else
+      if c.sentClose then some (m, [s!"E{call}=err"]) else
+      some (m, [s!"w96:{c.remoteId}", s!"E{call}=ok"])
 
 /-- a caller blocked on `ch.msg` (OpenChannel / SendRequest) takes the next message, or sees the closed channel -/
 def completeChan (c : Chan) : Chan × Evs × Bool :=      -- (channel, events, application obtained the channel)
